@@ -11,17 +11,19 @@ SEPS = [" ", " ", " ", "  ", "\t", "\n", "\r\n", " \n  ", " ", "　", "\x0b", "
 WORDS = ["a", "b", "c", "foo", "bar", "x1", "héllo", "\\AND", "ANDx", "and", "or", "not", "xOR",
          "a\\:b", "foo*", "?x", "*", "te?t", "2024-01-01T12:30:45", "T12:30", "a+b", "a-b", "x/y",
          ",", "a\"b", "a'b", "a<b", "a>=b", "=b", "a=b", "\\(x\\)", "\\ y", "12", "1.5", "\\-z",
-         "日本", "x\\\\", "\\*", "a\\*b", "TOx", "to", "a.b", "Z"]
+         "日本", "x\\\\", "\\*", "a\\*b", "TOx", "to", "a.b", "Z", "34", "30:15", "45x", "T12", "10t20"]
 PHRASES = ['"a b"', '""', '"a\\"b"', '"x:y"', '"AND"', '"a (b) [c]"', '"é ü"', '" lead"', '"t\\\\"',
            '"a\tb"', '"wild*"']
 PHRASES_NL = ['"a\nb"']
 REGEXES = ["/a b/", "//", "/a\\/b/", "/[a-z]+/", "/x(y|z)/"]
 REGEXES_NL = ["/a\nb/"]
-NUMS = ["", "", "2", "2.0", ".5", "007", "1.", "10", "100", "0.50", "1.25", "0", "0.0", "3.14159"]
+NUMS = ["", "", "2", "2.0", ".5", "007", "1.", "10", "100", "0.50", "1.25", "0", "0.0", "3.14159",
+        "0.0000001", ".00000025", "0.000001", "1234567.125", "100000000000000000000", "000.000", "5000000"]
 NUMS_LONG = ["1234567890123456789012345678901", "0.1234567890123456789012345678901"]
 NUMS_BAD = [".", "1.2.3", "..", "1..2"]
 INTS = ["", "", "1", "2", "03", "10", "0"]
-FIELDS = ["f", "title", "a.b", "author.name", "f1", "x_y", "été", "a\\:b", "f-g", "*", "a.b.c"]
+FIELDS = ["f", "title", "a.b", "author.name", "f1", "x_y", "été", "a\\:b", "f-g", "*", "a.b.c", "T12", "part12",
+          "t07", "xT30"]
 
 
 class QueryGen:
